@@ -197,6 +197,34 @@ impl WaitCondvar<bool> {
 	}
 }
 
+/// A lock is taken on a file that was opened by path a moment earlier. In between the directory
+/// can have been removed and created again (`migrate` does that with the directories it keeps for
+/// itself) by a handle that is alive: the lock then sits on a file nobody else will ever lock.
+/// Tells whether the locked file is still the one at the path.
+#[cfg(unix)]
+pub(crate) fn lock_is_current(
+	lock_file: &std::fs::File,
+	lock_path: &std::path::Path,
+) -> std::io::Result<()> {
+	use std::os::unix::fs::MetadataExt;
+	let locked = lock_file.metadata()?;
+	let at_path = std::fs::metadata(lock_path)?;
+	if at_path.dev() == locked.dev() && at_path.ino() == locked.ino() {
+		Ok(())
+	} else {
+		Err(std::io::Error::new(std::io::ErrorKind::WouldBlock, "lock file was replaced"))
+	}
+}
+
+#[cfg(not(unix))]
+pub(crate) fn lock_is_current(
+	_lock_file: &std::fs::File,
+	_lock_path: &std::path::Path,
+) -> std::io::Result<()> {
+	// An open file can not be removed.
+	Ok(())
+}
+
 impl DbInner {
 	fn open(
 		options: &Options,
@@ -217,6 +245,7 @@ impl DbInner {
 			.write(true)
 			.open(lock_path.as_path()));
 		lock_file.try_lock_exclusive().map_err(Error::Locked)?;
+		lock_is_current(&lock_file, lock_path.as_path()).map_err(Error::Locked)?;
 
 		let metadata = options.load_and_validate_metadata_in_version(
 			opening_mode == OpeningMode::Create,
